@@ -269,8 +269,12 @@ def run(ctx):
     stmt_leg(ctx, 200 if ctx.tier == "quick" else 6000)
     rerun_witnesses(ctx, binp)
     ctx.assumptions += [
-        "proof covers level W only (Lit, '..', $'..', \"..\", $\"..\", $x, ${x}; LangBash; delimiters blank tab newline ; & | )); "
-        "statements, separators, comments, heredocs, all other node kinds, KeepPadding and zsh: search only",
+        "proof covers level W (Lit, '..', $'..', \"..\", $\"..\", $x, ${x}; LangBash; delimiters blank tab newline ; & | )) and "
+        "level S under SingleLine only (statement lists, simple commands, ; newline & ! && || |, { }, ( ), if/elif/else, while/until: "
+        "C01_stmt_roundtrip_partial); the default multi-line layout, Minify, redirections, assignments, for/case/functions, comments, "
+        "heredocs, all other node kinds, KeepPadding and zsh: search only",
+        "level-S model: MiniPrinter.v transliterates the separator state machine for SingleLine (no position is read there); "
+        "MiniParser.v follows parser.go's structure on bytes; tie = the statement leg (real Printer bytes, real Parser trees, random source layout)",
         "lex_word is a byte-level model of the lexer on these parts, not a transliteration of lexer.go; its tie to the code is the word leg",
         "the Go norm (hxfmt.Shape) is hand-written from the property's ignoring clause; an absent and an empty heredoc body are identified",
         "mutations/generated programs are not run in zsh (corpus only)",
